@@ -184,4 +184,54 @@ example : ∃ as s s' o, History params 2 as s ∧ Legal params 2 s (.next 0 (.f
     step params s (.next 0 (.failAfter 6)) = some (s', o, true) ∧ o = .errStore ∧ s'.gens = s.gens :=
   ⟨Ex.acts.take 8, (runActs params Sys.empty (Ex.acts.take 8)).get (by decide), _, _, by decide, by decide, rfl, by decide, by decide⟩
 
+/-! ### The translated source (Gen/C08.lean, `namespace Tr`, rewritten from seq.go on every run) equals the model's
+segment arithmetic — for ALL int64 inputs, overflowing ones included (`wrap64` is `Int.bmod · 2^64`, `wrap64_eq_bmod`);
+no range hypothesis is needed. Proofs normalise and close up to associativity/commutativity (harmless rewrites survive). -/
+section Translated
+open Fatchoy.Gen.C08
+set_option linter.unusedSimpArgs false
+/-- what `reload` stores in `lastID` is the model's `wrap64 (c * step)`, for every int64 counter and step -/
+theorem C08_tr_reload_lastID (step c : BitVec 64) :
+    (Tr.reload_lastID step c).toInt = wrap64 (c.toInt * step.toInt) := by
+  simp [Tr.reload_lastID, wrap64_eq_bmod, BitVec.toInt_mul, Int.mul_comm] <;> ac_rfl
+
+/-- the segment end computed by `reload` and by `Next` is the model's `rangeEnd` (both int64 wraps included) -/
+theorem C08_tr_rangeEnd (step c : BitVec 64) (x l : Int) :
+    (Tr.reload_rangeEnd step c).toInt = rangeEnd ⟨step.toInt, x, l⟩ c.toInt ∧
+    (Tr.Next_rangeEnd step c).toInt = rangeEnd ⟨step.toInt, x, l⟩ c.toInt := by
+  constructor <;>
+  (simp [Tr.reload_rangeEnd, Tr.Next_rangeEnd, rangeEnd, wrap64_eq_bmod, BitVec.toInt_mul, BitVec.toInt_add, Int.mul_comm, Int.add_comm] <;> ac_rfl)
+
+/-- the overflow test of `reload` is the model's `rangeEnd g c < lastID` (signed comparison) -/
+theorem C08_tr_reload_overflow (step lastID c : BitVec 64) (x l : Int) :
+    Tr.reload_overflow step lastID c = decide (rangeEnd ⟨step.toInt, x, l⟩ c.toInt < lastID.toInt) := by
+  rw [Bool.eq_iff_iff]
+  simp [Tr.reload_overflow, BitVec.slt, ← (C08_tr_rangeEnd step c x l).1, Tr.reload_rangeEnd]
+
+/-- the candidate id of `Next` is the model's `wrap64 (lastID + 1)` -/
+theorem C08_tr_Next_next (lastID : BitVec 64) :
+    (Tr.Next_next lastID).toInt = wrap64 (lastID.toInt + 1) := by
+  simp [Tr.Next_next, wrap64_eq_bmod, BitVec.toInt_add, Int.add_comm] <;> ac_rfl
+
+/-- the in-segment test of `Next` is the model's `nxt ≤ rangeEnd g g.counter` -/
+theorem C08_tr_Next_inRange (step c n : BitVec 64) (l : Int) :
+    Tr.Next_inRange step c n = decide (n.toInt ≤ rangeEnd ⟨step.toInt, c.toInt, l⟩ c.toInt) := by
+  rw [Bool.eq_iff_iff]
+  simp [Tr.Next_inRange, BitVec.sle, ← (C08_tr_rangeEnd step c c.toInt l).2, Tr.Next_rangeEnd]
+
+/-- the model's decision of `Next` to go to the store, on the translated code -/
+theorem C08_tr_needsStore (step c lastID : BitVec 64) :
+    needsStore ⟨step.toInt, c.toInt, lastID.toInt⟩ =
+      !(Tr.Next_inRange step c (Tr.Next_next lastID)) := by
+  rw [C08_tr_Next_inRange step c _ lastID.toInt, C08_tr_Next_next]
+  unfold needsStore
+  by_cases h : wrap64 (lastID.toInt + 1) ≤ rangeEnd ⟨step.toInt, c.toInt, lastID.toInt⟩ c.toInt <;> simp [h]
+
+/-- test (samples, not a proof): a segment of 2000 ids; the last id of a segment; a product that wraps -/
+example : Tr.reload_lastID 2000#64 7#64 = 14000#64 ∧ Tr.Next_inRange 2000#64 7#64 16000#64 = true ∧
+    Tr.Next_inRange 2000#64 7#64 16001#64 = false ∧
+    Tr.reload_overflow 9223372036854775807#64 (Tr.reload_lastID 9223372036854775807#64 3#64) 3#64 = true := by decide
+
+end Translated
+
 end Fatchoy.C08
